@@ -487,3 +487,60 @@ def optional_truthiness_obligations(ctx, rule_id: str, relfiles: Sequence[str], 
            'never by its truth value: ' + why, rel + ':1',
            '; '.join(f'{f.qualname}: `{e}` in boolean context (line {l})' for f, l, e, _ in hits) +
            ' - the legitimate value 0 is treated as "not given"')
+
+
+# ---------------------------------------------------------------------------
+# The type-check flag switches validation only
+# ---------------------------------------------------------------------------
+
+def typecheck_flag_obligations(ctx, rule: str, relpaths, floor: int = 1):
+  """`flags.is_type_check_enabled()` decides whether a value is passed through
+  `<spec>.apply(...)`; it never decides whether the value is stored, nor whether
+  an argument is known.  For every `if` whose test consults the flag: the
+  guarded branch consists of apply-assignments only, and the other branch does
+  not raise (a branch `if spec and flag: ...store... elif ...: raise` turns
+  "validation off" into "unknown argument")."""
+  idx = ctx.index
+  n = 0
+  for rel in relpaths:
+    m = idx.by_relpath.get(rel)
+    if m is None:
+      continue
+    for f in m.funcs.values():
+      for node in A.walk_local(f.node):
+        if not isinstance(node, ast.If):
+          continue
+        if not any(isinstance(c, ast.Call) and (A.call_name(c) or '').endswith('is_type_check_enabled')
+                   for c in ast.walk(node.test)):
+          continue
+        n += 1
+        problems = []
+        def is_apply(e):
+          if isinstance(e, ast.Call) and isinstance(e.func, ast.Attribute) and e.func.attr == 'apply':
+            return True
+          if isinstance(e, (ast.ListComp, ast.GeneratorExp, ast.DictComp)):
+            elt = e.value if isinstance(e, ast.DictComp) else e.elt
+            return is_apply(elt)
+          if isinstance(e, ast.Call) and A.call_name(e) in ('list', 'tuple', 'dict') and e.args:
+            return is_apply(e.args[0])
+          return False
+        for st in node.body:
+          if isinstance(st, ast.Expr) and (is_apply(st.value) or isinstance(st.value, ast.Constant)):
+            continue
+          if isinstance(st, ast.Assign) and is_apply(st.value) and all(isinstance(t, ast.Name) for t in st.targets):
+            continue
+          problems.append(f'line {st.lineno}: `{A.unparse(st, 60)}` happens only while type checking is enabled')
+        for st in node.orelse:
+          for x in ast.walk(st):
+            if isinstance(x, ast.Raise):
+              problems.append(f'line {x.lineno}: with type checking disabled the call raises '
+                              f'`{A.unparse(x.exc, 50) if x.exc else "raise"}`')
+        ctx.ob(rule, f'{f.fq}#typecheck-flag@{_norm_test(node.test)}', not problems,
+               'the type-check flag only switches <spec>.apply(...) on and off: nothing else is stored, skipped or '
+               'raised because of it', f'{m.relpath}:{node.lineno}', '; '.join(problems))
+  if n < floor:
+    raise AnalysisError(f'{rule}: only {n} tests of is_type_check_enabled() found (expected >= {floor})')
+
+
+def _norm_test(t):
+  return A.unparse(t, 60).replace(' ', '')
